@@ -112,8 +112,8 @@ Cleandoc(d) ==
 DocstringValue(raw) == Cleandoc(Rstrip(raw))
 \* visitor: Docstring(ast constant value)
 StaticDoc(shape) == DocstringValue(DocLines(shape))
-\* inspector: _get_docstring does cleandoc(obj.__doc__) and hands the result to Docstring(...)
-DynDoc(raw) == IF raw = <<>> THEN <<>> ELSE DocstringValue(Cleandoc(raw))
+\* inspector: _get_docstring hands the raw obj.__doc__ (None -> no docstring) to Docstring(...), which cleans it once
+DynDoc(raw) == IF raw = <<>> THEN <<>> ELSE DocstringValue(raw)
 
 \* ---- signatures --------------------------------------------------------------------------------
 PS(n, k, d) == [name |-> n, kind |-> k, dflt |-> d]         \* source form: has a default?
@@ -550,7 +550,6 @@ Cause(t, d, p, clause) ==
      ELSE IF clause = "members" /\ o = "import" /\ ~hasD /\ main = "init" THEN "import-self"
      ELSE IF clause = "members" /\ ~hasS /\ hasD /\ main = "init" /\ Len(p) >= 2 /\ Last(p) = "other" THEN "from-dot-in-class"
      ELSE IF clause = "params" /\ hasS /\ "classmethod" \in t[p].labels THEN "classmethod-cls"
-     ELSE IF clause = "doc" /\ (IF p = <<>> THEN mdoc ELSE t[p].dshape) = "deep" THEN "double-cleandoc"
      ELSE IF clause = "bases" /\ hasS /\ Bvia(t, p) = "annonly" THEN "annonly"
      ELSE IF clause = "bases" /\ hasS /\ Rebound(t, p) THEN "base-rebound"
      ELSE IF clause = "bases" /\ hasS /\ Bvia(t, p) = "ref" THEN "ref"
@@ -605,7 +604,6 @@ DiffsComplete == Done => ((diffs = {}) <=> (skS = skD))
 NoAnnOnly == Done => \A x \in diffs : x.cause # "annonly"
 NoClassmethodCls == Done => \A x \in diffs : x.cause # "classmethod-cls"
 NoImportSelf == Done => \A x \in diffs : x.cause # "import-self"
-NoDoubleCleandoc == Done => \A x \in diffs : x.cause # "double-cleandoc"
 NoBaseRebound == Done => \A x \in diffs : x.cause # "base-rebound"
 NoRef == Done => \A x \in diffs : x.cause # "ref"
 NoFromDotInClass == Done => \A x \in diffs : x.cause # "from-dot-in-class"
@@ -625,6 +623,6 @@ EmitCase ==
                               diffs |-> diffs, xdump |-> xdump, smeta |-> StaticMeta, dmeta |-> DynMeta])>>)
 
 \* the docstring table (validated against the real inspect.cleandoc by the driver)
-DocTable == {[shape |-> s, raw |-> DocLines(s), once |-> StaticDoc(s), twice |-> DynDoc(DocLines(s))] : s \in AllDocShapes}
+DocTable == {[shape |-> s, raw |-> DocLines(s), once |-> StaticDoc(s), dyn |-> DynDoc(DocLines(s))] : s \in AllDocShapes}
 ASSUME PrintT(<<"NOTE", ToJson([doctable |-> DocTable])>>)
 =============================================================================
